@@ -77,7 +77,7 @@ def trace_confirm(C, h, res, path, art):
     art["concrete_vals"] = None
     with open(path, "w") as f:
         json.dump(art, f, indent=1)
-    return path, verdict == "FAILED", f"counterexample confirmed by a second solver run on the failed property ({dt:.0f} s); {len(assigns)} harness assignments stored (stubs prevent native replay)"
+    return path, verdict == "FAILED", f"counterexample confirmed by a second solver run on the failed property ({dt:.0f} s); {len(assigns)} harness assignments stored (harness too heavy for kani-driver playback, or stubbed)"
 
 
 def make_replay(C, prop, h, res):
@@ -90,7 +90,10 @@ def make_replay(C, prop, h, res):
            "crate": h["crate"], "failed_checks": res["failed"], "repo_head": C.git_head(C.REPO),
            "how_to_run": f"cd /verif && bin/check --replay {path}", "concrete_vals": None}
     detail = ""
-    if (h.get("replay", "native") == "trace" or res.get("progress_violation")) and h.get("mem", 3) >= int(os.environ.get("VERIF_TRACE_CONFIRM_MIN_MEM", "8")) \
+    # harnesses declared at 10 GB or more: kani-driver's own run (needed for concrete playback values, and the only
+    # confirmation for stubbed harnesses) has been seen to need 40+ GB and hours; they are confirmed by a second CBMC
+    # run on the single failed property instead, whatever their replay mode
+    if h.get("mem", 3) >= int(os.environ.get("VERIF_TRACE_CONFIRM_MIN_MEM", "10")) \
             and res.get("goto") and os.path.exists(res["goto"]):
         return trace_confirm(C, h, res, path, art)
     with C.Scratch(f"replay-{prop}-{name}") as sc:
